@@ -2098,7 +2098,10 @@ impl<'a, 'b, W: Write> SerializeTupleStruct for TupleSer<'a, 'b, W> {
                         if self.ser.in_flow == 0 {
                             // Stage the comment so scalar/alias serializers append it inline via write_end_of_scalar.
                             if !comment.is_empty() {
-                                let sanitized = comment.replace('\n', " ");
+                                // The comment must stay on its line: every line break character
+                                // becomes a space.
+                                let sanitized = comment
+                                    .replace(['\n', '\r', '\u{0085}', '\u{2028}', '\u{2029}'], " ");
                                 self.ser.pending_inline_comment = Some(sanitized);
                             }
                             // Serialize the inner value as-is. Complex values will ignore the comment (it will be cleared).
